@@ -4,13 +4,17 @@ import Mathlib.Data.Rat.Floor
 
 Property theorems only (helper lemmas: `Lemmas/Grid.lean` (ordered-field geometry), `Lemmas/GridCells.lean`,
 `GridIndex.lean`, `GridBuild.lean`, `GridQuery.lean`, `GridMain.lean`). The model is `Model/Grid.lean`
-(`core/spatial_index.py` after ad7c5ee, `cartesienne`/`isSegmentIntersects` of `util/geometry.py`).
+(`core/spatial_index.py` after ad7c5ee and 9a44198, `cartesienne`/`isSegmentIntersects` of `util/geometry.py`).
 
 All statements are over an arbitrary linearly ordered field `α` (ℚ, ℝ) with `fl : α → ℤ` any function satisfying
 the contract of `math.floor` (`IsFloor`); they are about the exact values, not about IEEE rounding.
 `lerp A B s` is the point `A + s (B − A)` of the segment `[A, B]`; `Consec t` are the consecutive vertex pairs of
-the track `t`; `Holds g i j k` says `k ∈ grid[i][j]`. A theorem about `build … = .ok ix` speaks about
-constructor calls that return (for `margin = 0` none does: finding `vertex-on-upper-border`). -/
+the track `t`; `Holds g i j k` says `k ∈ grid[i][j]`. `getCell ix p = some c` says that `p` is inside the closed
+extent and `c` are its fractional cell indices (what `__getCell` returns when it returns; `getCellR` is `__getCell`
+with its ZeroDivisionError on a zero cell side). A theorem about `build … = .ok ix` speaks about constructor calls
+that return: since 9a44198 that includes the thin extents with the default resolution (`default_resolution_builds`);
+for `margin = 0` none returns (finding `vertex-on-upper-border`), nor for a collection with a segment and a flat
+extent (`flat_extent_raises`). -/
 namespace TV.C08
 open TV.Grid
 variable {α : Type} [Field α] [LinearOrder α] [IsStrictOrderedRing α]
@@ -57,9 +61,11 @@ theorem point_query_complete {fl : α → Int} (hf : IsFloor fl) (feats : List (
     ∃ l, requestPoint fl ix q = .ok l ∧ k ∈ l := by
   obtain ⟨c, hc, l, hl, hkl⟩ := build_registers hf feats res margin ix hm hb k t hk A B hAB s hs0 hs1
   rw [hP] at hc; cases hc
+  obtain ⟨hnz, _, _⟩ := build_nonflat feats res margin ix hm hb t (List.mem_of_getElem? hk)
+    (List.ne_nil_of_mem hAB)
   refine ⟨l, ?_, hkl⟩
   unfold requestPoint requestCell
-  simp only [hq, hcell.1, hcell.2]
+  simp only [getCellR_of_nz ix hnz q, hq, hcell.1, hcell.2]
   exact hl
 
 /-- T3c `segment_query_complete`: a returned `request([Q1, Q2])` contains every feature listed in the cell of any
@@ -82,9 +88,12 @@ theorem segment_query_returns {fl : α → Int} (hf : IsFloor fl) (feats : List 
     (h1 : (ix.xmin ≤ Q1.1 ∧ Q1.1 < ix.xmax) ∧ (ix.ymin ≤ Q1.2 ∧ Q1.2 < ix.ymax))
     (h2 : (ix.xmin ≤ Q2.1 ∧ Q2.1 < ix.xmax) ∧ (ix.ymin ≤ Q2.2 ∧ Q2.2 < ix.ymax)) :
     ∃ l, requestSeg fl ix Q1 Q2 = .ok l := by
-  obtain ⟨hw, _, _, hpos⟩ := build_spec feats res margin ix hm hb
-  obtain ⟨_, _, hdX, hdY⟩ := hpos hf hres
-  obtain ⟨ex, ey⟩ := build_extent feats res margin ix hm hb
+  obtain ⟨hw, _, _, _, _⟩ := build_spec feats res margin ix hm hb
+  obtain ⟨_, _, pX, pY, _, _⟩ := build_pos hf feats res margin ix hm hres hb
+  have hdX := pX (lt_of_le_of_lt h1.1.1 h1.1.2)
+  have hdY := pY (lt_of_le_of_lt h1.2.1 h1.2.2)
+  have hnz : NZ ix := (NZ_iff ix).mpr ⟨ne_of_gt hdX, ne_of_gt hdY⟩
+  obtain ⟨ex, ey, _, _⟩ := build_extent feats res margin ix hm hb
   have g1 : getCell ix Q1 = some ((Q1.1 - ix.xmin) / ix.dX, (Q1.2 - ix.ymin) / ix.dY) :=
     (getCell_some_iff ix Q1 _).mpr ⟨⟨h1.1.1, le_of_lt h1.1.2⟩, ⟨h1.2.1, le_of_lt h1.2.2⟩, rfl⟩
   have g2 : getCell ix Q2 = some ((Q2.1 - ix.xmin) / ix.dX, (Q2.2 - ix.ymin) / ix.dY) :=
@@ -94,7 +103,7 @@ theorem segment_query_returns {fl : α → Int} (hf : IsFloor fl) (feats : List 
   have b1 := floor_index_range hf ix.ymin ix.ymax ix.dY Q1.2 ix.lsize hdY ey h1.2.1 h1.2.2
   have b2 := floor_index_range hf ix.ymin ix.ymax ix.dY Q2.2 ix.lsize hdY ey h2.2.1 h2.2.2
   unfold requestSeg requestSegInto
-  simp only [g1, g2]
+  simp only [getCellR_of_nz ix hnz, g1, g2]
   apply collectCells_ok ix _ [] hw.2
   intro cell hcell
   have hc : (cell.1, cell.2) ∈ cellsCross fl ((Q1.1 - ix.xmin) / ix.dX, (Q1.2 - ix.ymin) / ix.dY)
@@ -117,18 +126,20 @@ theorem track_query_complete {fl : α → Int} (hf : IsFloor fl) (ix : Index α)
 
 /-- T4a `units_sound`: with positive cell sizes, two points inside the extent whose coordinates differ by at most
 `d` on each axis (in particular two points at Euclidean distance ≤ `d`) fall in cells whose column and row indices
-differ by at most `groundDistanceToUnits(d) = floor(d / min(dX, dY) + 1)`. -/
+differ by at most `groundDistanceToUnits(d) = floor(d / min(dX, dY) + 1)` (which does not raise). -/
 theorem units_sound {fl : α → Int} (hf : IsFloor fl) (ix : Index α) (hdX : 0 < ix.dX) (hdY : 0 < ix.dY)
     (p q cp cq : α × α) (d : α) (hp : getCell ix p = some cp) (hq : getCell ix q = some cq)
     (hx : -d ≤ q.1 - p.1 ∧ q.1 - p.1 ≤ d) (hy : -d ≤ q.2 - p.2 ∧ q.2 - p.2 ≤ d) :
-    let u := groundDistanceToUnits fl ix d
-    (fl cq.1 - fl cp.1 ≤ u ∧ fl cp.1 - fl cq.1 ≤ u) ∧ (fl cq.2 - fl cp.2 ≤ u ∧ fl cp.2 - fl cq.2 ≤ u) := by
+    ∃ u, groundDistanceToUnits fl ix d = .ok u ∧ u = fl (d / min ix.dX ix.dY + 1) ∧
+      (fl cq.1 - fl cp.1 ≤ u ∧ fl cp.1 - fl cq.1 ≤ u) ∧ (fl cq.2 - fl cp.2 ≤ u ∧ fl cp.2 - fl cq.2 ≤ u) := by
   obtain ⟨_, _, rfl⟩ := (getCell_some_iff ix p cp).mp hp
   obtain ⟨_, _, rfl⟩ := (getCell_some_iff ix q cq).mp hq
   have hmn : 0 < min ix.dX ix.dY := lt_min hdX hdY
-  simp only [groundDistanceToUnits, pyMin_eq, Int.cast_one]
-  exact ⟨units_axis hf p.1 q.1 ix.xmin ix.dX d _ hmn (min_le_left _ _) hx.1 hx.2,
-    units_axis hf p.2 q.2 ix.ymin ix.dY d _ hmn (min_le_right _ _) hy.1 hy.2⟩
+  have hz : isZero (min ix.dX ix.dY) = false := (isZero_false_iff _).mpr (ne_of_gt hmn)
+  refine ⟨fl (d / min ix.dX ix.dY + 1), ?_, rfl, ?_⟩
+  · simp only [groundDistanceToUnits, pyMin_eq, Int.cast_one, hz, Bool.false_eq_true, if_false]
+  · exact ⟨units_axis hf p.1 q.1 ix.xmin ix.dX d _ hmn (min_le_left _ _) hx.1 hx.2,
+      units_axis hf p.2 q.2 ix.ymin ix.dY d _ hmn (min_le_right _ _) hy.1 hy.2⟩
 
 omit [Field α] [LinearOrder α] [IsStrictOrderedRing α] in
 /-- T4b `neighboringCells_square`: `__neighboringcells(i, j, u)` is exactly the square of Chebyshev radius `u`
@@ -145,17 +156,21 @@ theorem neighboringCells_square (ix : Index α) (i j u i' j' : Int) :
 
 /-- T4c `neighborhood_complete`: for an index built with `margin ≥ 0` and a positive (or the default) cell size,
 a query point `q` inside the extent and a ground distance `d ≥ 0`:
-`neighborhood(q, unit = groundDistanceToUnits(d))` does not raise and returns every feature `k` that has a point
-`P` (on one of its segments) within Euclidean distance `d` of `q`. -/
+`groundDistanceToUnits(d)` and `neighborhood(q, unit = groundDistanceToUnits(d))` do not raise and the latter
+returns every feature `k` that has a point `P` (on one of its segments) within Euclidean distance `d` of `q`. -/
 theorem neighborhood_complete {fl : α → Int} (hf : IsFloor fl) (feats : List (List (α × α))) (res : Option (α × α))
     (margin : α) (ix : Index α) (hm : 0 ≤ margin) (hres : ∀ r, res = some r → 0 < r.1 ∧ 0 < r.2)
     (hb : build fl feats res margin = .ok ix)
     (k : Nat) (t : List (α × α)) (hk : feats[k]? = some t) (A B : α × α) (hAB : (A, B) ∈ Consec t)
     (s : α) (hs0 : 0 ≤ s) (hs1 : s ≤ 1) (q : α × α) (hq : getCell ix q ≠ none) (d : α) (hd : 0 ≤ d)
     (hdist : (q.1 - (lerp A B s).1) ^ 2 + (q.2 - (lerp A B s).2) ^ 2 ≤ d ^ 2) :
-    ∃ l, neighborhoodPoint fl ix q (groundDistanceToUnits fl ix d) = .ok (some l) ∧ k ∈ l := by
-  obtain ⟨hw, _, _, hpos⟩ := build_spec feats res margin ix hm hb
-  obtain ⟨hcs, hls, hdX, hdY⟩ := hpos hf hres
+    ∃ u l, groundDistanceToUnits fl ix d = .ok u ∧ neighborhoodPoint fl ix q u = .ok (some l) ∧ k ∈ l := by
+  obtain ⟨hw, _, _, _, _⟩ := build_spec feats res margin ix hm hb
+  obtain ⟨hnz, nfx, nfy⟩ := build_nonflat feats res margin ix hm hb t (List.mem_of_getElem? hk)
+    (List.ne_nil_of_mem hAB)
+  obtain ⟨hcs, hls, pX, pY, _, _⟩ := build_pos hf feats res margin ix hm hres hb
+  have hdX := pX nfx
+  have hdY := pY nfy
   obtain ⟨cP, hP, hHolds⟩ := build_registers hf feats res margin ix hm hb k t hk A B hAB s hs0 hs1
   obtain ⟨cq, hcq⟩ := Option.ne_none_iff_exists'.mp hq
   -- coordinate differences are bounded by the Euclidean distance
@@ -165,12 +180,10 @@ theorem neighborhood_complete {fl : α → Int} (hf : IsFloor fl) (feats : List 
   have hy : -d ≤ q.2 - (lerp A B s).2 ∧ q.2 - (lerp A B s).2 ≤ d := by
     have h2 : (q.2 - (lerp A B s).2) ^ 2 ≤ d ^ 2 := by nlinarith [sq_nonneg (q.1 - (lerp A B s).1)]
     exact abs_le.mp (abs_le_of_sq_le_sq h2 hd)
-  have hu := units_sound hf ix hdX hdY (lerp A B s) q cP cq d hP hcq hx hy
-  simp only at hu
-  obtain ⟨⟨u1, u2⟩, u3, u4⟩ := hu
+  obtain ⟨u, hgu, hueq, ⟨u1, u2⟩, u3, u4⟩ := units_sound hf ix hdX hdY (lerp A B s) q cP cq d hP hcq hx hy
   have hmn : 0 < min ix.dX ix.dY := lt_min hdX hdY
-  have hu1 : 1 ≤ groundDistanceToUnits fl ix d := by
-    simp only [groundDistanceToUnits, pyMin_eq, Int.cast_one]
+  have hu1 : 1 ≤ u := by
+    rw [hueq]
     exact units_pos hf d _ hd hmn
   -- the cell of P is inside the grid
   obtain ⟨a1, a2, rfl⟩ := (getCell_some_iff ix _ cP).mp hP
@@ -186,18 +199,19 @@ theorem neighborhood_complete {fl : α → Int} (hf : IsFloor fl) (feats : List 
   have hi1' : fl (((lerp A B s).1 - ix.xmin) / ix.dX) < ix.csize := by omega
   have hj1' : fl (((lerp A B s).2 - ix.ymin) / ix.dY) < ix.lsize := by omega
   -- the query
+  refine ⟨u, ?_⟩
   unfold neighborhoodPoint
-  simp only [hcq]
+  simp only [getCellR_of_nz ix hnz q, hcq]
   unfold neighborhoodCell
-  have hne : (groundDistanceToUnits fl ix d != -1) = true := by
+  have hne : (u != -1) = true := by
     simp only [bne_iff_ne, ne_eq]; omega
   simp only [hne, if_true]
-  obtain ⟨out, hout⟩ := collectCells_ok ix (neighboringCells ix (fl cq.1) (fl cq.2) (groundDistanceToUnits fl ix d) false) []
+  obtain ⟨out, hout⟩ := collectCells_ok ix (neighboringCells ix (fl cq.1) (fl cq.2) u false) []
     hw.2 (by
       intro cell hcell
       have := (neighboringCells_square ix _ _ _ cell.1 cell.2).mp hcell
       exact ⟨⟨this.1.2.2.1, this.1.2.2.2⟩, this.2.2.2.1, this.2.2.2.2⟩)
-  refine ⟨out, by rw [hout], ?_⟩
+  refine ⟨out, hgu, by rw [hout], ?_⟩
   obtain ⟨_, hall⟩ := collectCells_spec ix _ [] out hout
   apply hall (fl (((lerp A B s).1 - ix.xmin) / ix.dX), fl (((lerp A B s).2 - ix.ymin) / ix.dY))
   · rw [neighboringCells_square]
@@ -214,9 +228,13 @@ theorem vertex_on_upper_border_raises {fl : α → Int} (hf : IsFloor fl) (feats
     (k : Nat) (t : List (α × α)) (hk : feats[k]? = some t) (A B : α × α) (hAB : (A, B) ∈ Consec t)
     (s : α) (hs0 : 0 ≤ s) (hs1 : s ≤ 1) :
     (lerp A B s).1 < ix.xmax ∧ (lerp A B s).2 < ix.ymax := by
-  obtain ⟨hw, _, _, hpos⟩ := build_spec feats res margin ix hm hb
-  obtain ⟨_, _, hdX, hdY⟩ := hpos hf hres
-  obtain ⟨ex, ey⟩ := build_extent feats res margin ix hm hb
+  obtain ⟨hw, _, _, _, _⟩ := build_spec feats res margin ix hm hb
+  obtain ⟨_, nfx, nfy⟩ := build_nonflat feats res margin ix hm hb t (List.mem_of_getElem? hk)
+    (List.ne_nil_of_mem hAB)
+  obtain ⟨_, _, pX, pY, _, _⟩ := build_pos hf feats res margin ix hm hres hb
+  have hdX := pX nfx
+  have hdY := pY nfy
+  obtain ⟨ex, ey, _, _⟩ := build_extent feats res margin ix hm hb
   obtain ⟨cP, hP, cl, hcl, _⟩ := build_registers hf feats res margin ix hm hb k t hk A B hAB s hs0 hs1
   obtain ⟨a1, a2, rfl⟩ := (getCell_some_iff ix _ cP).mp hP
   dsimp only at hcl
@@ -242,29 +260,69 @@ theorem vertex_on_upper_border_raises {fl : α → Int} (hf : IsFloor fl) (feats
     omega
 
 /-- Formal side of finding `query-on-upper-border`: on a built index, `request(q)` for a point `q` of the extent
-with `x = xmax` or `y = ymax` raises IndexError (`__getCell` accepts the point and returns index `csize` / `lsize`). -/
+with `x = xmax` or `y = ymax` raises: IndexError when the extent is not flat (`__getCell` accepts the point and
+returns index `csize` / `lsize`), and ZeroDivisionError (in `__getCell`) when it is flat. -/
 theorem point_query_on_upper_border_raises {fl : α → Int} (hf : IsFloor fl) (feats : List (List (α × α)))
     (res : Option (α × α)) (margin : α) (ix : Index α) (hm : 0 ≤ margin) (hres : ∀ r, res = some r → 0 < r.1 ∧ 0 < r.2)
     (hb : build fl feats res margin = .ok ix) (q : α × α) (hq : getCell ix q ≠ none)
-    (hborder : q.1 = ix.xmax ∨ q.2 = ix.ymax) : requestPoint fl ix q = .error .index := by
-  obtain ⟨hw, _, _, hpos⟩ := build_spec feats res margin ix hm hb
-  obtain ⟨hcs, hls, hdX, hdY⟩ := hpos hf hres
-  obtain ⟨ex, ey⟩ := build_extent feats res margin ix hm hb
+    (hborder : q.1 = ix.xmax ∨ q.2 = ix.ymax) :
+    requestPoint fl ix q = .error (if ix.xmin < ix.xmax ∧ ix.ymin < ix.ymax then .index else .zerodiv) := by
+  obtain ⟨hw, _, _, _, _⟩ := build_spec feats res margin ix hm hb
+  obtain ⟨hcs, hls, pX, pY, zX, zY⟩ := build_pos hf feats res margin ix hm hres hb
+  obtain ⟨ex, ey, _, _⟩ := build_extent feats res margin ix hm hb
   obtain ⟨cq, hcq⟩ := Option.ne_none_iff_exists'.mp hq
-  obtain ⟨_, _, rfl⟩ := (getCell_some_iff ix q cq).mp hcq
-  unfold requestPoint requestCell
-  simp only [hcq]
-  rcases hborder with he | he
-  · have : (q.1 - ix.xmin) / ix.dX = ((ix.csize : Int) : α) := by
-      rw [he, ← ex, mul_comm, mul_div_assoc, div_self (ne_of_gt hdX), mul_one]
-    rw [this, hf.eq_of (le_refl _) (by linarith)]
-    apply cellGet_err_col
-    rw [hw.2.1]; omega
-  · have : (q.2 - ix.ymin) / ix.dY = ((ix.lsize : Int) : α) := by
-      rw [he, ← ey, mul_comm, mul_div_assoc, div_self (ne_of_gt hdY), mul_one]
-    rw [this, hf.eq_of (le_refl _) (by linarith)]
-    apply cellGet_err_row _ _ _ hw.2
-    omega
+  obtain ⟨⟨a1, a2⟩, ⟨b1, b2⟩, rfl⟩ := (getCell_some_iff ix q cq).mp hcq
+  by_cases hnf : ix.xmin < ix.xmax ∧ ix.ymin < ix.ymax
+  · rw [if_pos hnf]
+    have hdX := pX hnf.1
+    have hdY := pY hnf.2
+    have hnz : NZ ix := (NZ_iff ix).mpr ⟨ne_of_gt hdX, ne_of_gt hdY⟩
+    unfold requestPoint requestCell
+    simp only [getCellR_of_nz ix hnz q, hcq]
+    rcases hborder with he | he
+    · have : (q.1 - ix.xmin) / ix.dX = ((ix.csize : Int) : α) := by
+        rw [he, ← ex, mul_comm, mul_div_assoc, div_self (ne_of_gt hdX), mul_one]
+      rw [this, hf.eq_of (le_refl _) (by linarith)]
+      apply cellGet_err_col
+      rw [hw.2.1]; omega
+    · have : (q.2 - ix.ymin) / ix.dY = ((ix.lsize : Int) : α) := by
+        rw [he, ← ey, mul_comm, mul_div_assoc, div_self (ne_of_gt hdY), mul_one]
+      rw [this, hf.eq_of (le_refl _) (by linarith)]
+      apply cellGet_err_row _ _ _ hw.2
+      omega
+  · rw [if_neg hnf]
+    have hz : ¬ NZ ix := by
+      intro hnz
+      obtain ⟨zx, zy⟩ := (NZ_iff ix).mp hnz
+      apply hnf
+      constructor
+      · exact lt_of_le_of_ne (le_trans a1 a2) (fun h => zx (zX h))
+      · exact lt_of_le_of_ne (le_trans b1 b2) (fun h => zy (zY h))
+    unfold requestPoint
+    rw [getCellR_error ix q _ hcq hz]
+
+/-- `default_resolution_builds` (the repair 9a44198): with the default resolution, `margin ≥ 0` and a bounding box
+that is not a single point, `__init__` reaches the registration loop without raising, with at least one column
+and one row, and with a positive cell side on every axis along which the bounding box has a positive length — for
+every aspect ratio (an extent more than 100 times wider than tall, or the converse, used to raise
+ZeroDivisionError). -/
+theorem default_resolution_builds (fl : α → Int) (bb : α × α × α × α) (margin : α) (hm : 0 ≤ margin)
+    (hbx : bb.1 ≤ bb.2.1) (hby : bb.2.2.1 ≤ bb.2.2.2) (hne : bb.1 < bb.2.1 ∨ bb.2.2.1 < bb.2.2.2) :
+    ∃ ix, mkIndex fl bb none margin = .ok ix ∧ 1 ≤ ix.csize ∧ 1 ≤ ix.lsize ∧
+      (bb.1 < bb.2.1 → 0 < ix.dX) ∧ (bb.2.2.1 < bb.2.2.2 → 0 < ix.dY) :=
+  mkIndex_default fl bb margin hm hbx hby hne
+
+/-- Formal side of finding `default-resolution-flat-extent`: if the constructor (`margin ≥ 0`) returns over a collection in which
+some feature has a segment (two vertices or more), then the extent is not flat: `xmin < xmax` and `ymin < ymax`,
+and no cell side is `0`. So for a collection with a segment whose vertices all share one abscissa or one ordinate
+(a straight east-west or north-south track) the constructor raises: ZeroDivisionError in `__getCell` with the
+default resolution (one row of height `0`), in `__init__` with an explicit one (`int(0 / ry) = 0` rows). -/
+theorem flat_extent_raises {fl : α → Int} (feats : List (List (α × α))) (res : Option (α × α)) (margin : α)
+    (ix : Index α) (hm : 0 ≤ margin) (hb : build fl feats res margin = .ok ix)
+    (t : List (α × α)) (ht : t ∈ feats) (A B : α × α) (hAB : (A, B) ∈ Consec t) :
+    ix.xmin < ix.xmax ∧ ix.ymin < ix.ymax ∧ ix.dX ≠ 0 ∧ ix.dY ≠ 0 := by
+  obtain ⟨hnz, nfx, nfy⟩ := build_nonflat feats res margin ix hm hb t ht (List.ne_nil_of_mem hAB)
+  exact ⟨nfx, nfy, (NZ_iff ix).mp hnz⟩
 
 /-! ### non-vacuity -/
 
@@ -286,7 +344,27 @@ example : (build Rat.floor [[((0 : ℚ), (0 : ℚ)), (1, 1)]] (some (1, 1)) 0).t
 
 /-- regression witness of the defect repaired by ad7c5ee: cells 60 x 1, distance 10 gives 11 units (was 1) -/
 example : (match build Rat.floor [[((0 : ℚ), (0 : ℚ)), (60, 0), (60, 4)], [(0, 10), (60, 10)]] (some (60, 1)) (1/2) with
-    | .ok ix => groundDistanceToUnits Rat.floor ix 10 | .error _ => 0) = 11 := by
+    | .ok ix => (match groundDistanceToUnits Rat.floor ix 10 with | .ok u => u | .error _ => 0) | .error _ => 0) = 11 := by
+  decide +kernel
+
+/-- regression witness of the defect repaired by 9a44198: the track (0,0)-(1000,5) with the default resolution and
+margin 1/20 is indexed on a 100 x 1 grid (it used to raise ZeroDivisionError), and the point (500, 5/2) finds it -/
+example : (match build Rat.floor [[((0 : ℚ), (0 : ℚ)), (1000, 5)]] none (1/20) with
+    | .ok ix => (ix.csize, ix.lsize, requestPoint Rat.floor ix (500, 5/2)) | .error _ => (0, 0, .error .exit))
+    = (100, 1, .ok [0]) := by
+  decide +kernel
+
+/-- a straight east-west track has a flat extent: with the default resolution the constructor raises
+ZeroDivisionError (finding `default-resolution-flat-extent`; `flat_extent_raises`) -/
+example : (match build Rat.floor [[((0 : ℚ), (0 : ℚ)), (10, 0)]] none (1/20) with
+    | .error .zerodiv => true | _ => false) = true := by
+  decide +kernel
+
+/-- two one-point features at the same ordinate: the default-resolution index is built (100 x 1 cells of height 0)
+and every point request raises ZeroDivisionError -/
+example : (match build Rat.floor [[((0 : ℚ), (0 : ℚ))], [(10, 0)]] none (1/20) with
+    | .ok ix => (match requestPoint Rat.floor ix (5, 0) with | .error .zerodiv => true | _ => false)
+    | .error _ => false) = true := by
   decide +kernel
 
 end TV.C08
